@@ -133,6 +133,18 @@ def check(run):
             if len(run._corr) < 3:
                 run._corr.append({"stream": "bundled", "sequence": [flat[2 * k][:300]], "impl": i1[:200], "model": model[2 * k][:200]})
     run.cov["impl_vs_spec_failures"] += bad
+    # ---- purity across calls: the same graph bytes must give the same witness whatever was evaluated before — from a caller-owned
+    #      buffer that is refilled in place (another well-formed graph of the same length at the same address in between), and from
+    #      the static copy after that. The patched evaluation itself is not compared (another graph), only the calls around it.
+    def bline(a, patch):
+        return "bundled_buf " + line_of(a, NAMES)[len("bundled "):] + " " + patch
+    PATCHES = ["244990:0xf2", "244990:0xf5", "-"]          # a same-length variant of graph.bin (one node reference changed), the original byte, nothing
+    pseqs = []
+    sens = base(); sens["userMessageLimit"] = [2**16]; sens["messageId"] = [0x2000]      # an assignment on which the variant graph's witness differs
+    for a in [sens] + A[:2] + A[-2:]:
+        for pt in PATCHES[:1] if quick else PATCHES:
+            pseqs.append([bline(a, "-"), bline(a, pt), bline(a, "-"), line_of(a, NAMES), bline(A[0], pt), bline(a, "-")])
+    run.differential("bundled-buffer-reuse", pseqs, shrink=False)
     run.sample({"assignment": {k: [hex(v) for v in A[0][k]][:3] for k in NAMES}, "witness_prefix": impl[0][:160]})
-    run.rules.append("assignments of the 46 inputs: limb-boundary and near-modulus values in each field position (sampled positions in quick), one-hot / all-zero / all-one direction patterns, message ids 0 / limit-1 for limits 1, 2, 2^16, all-zero and all-(p-1) vectors, random ones, and assignments chosen so that an INTERNAL multiplication operand is exactly 0 / 1 / -1 (sibling = running hash + d at a level, both directions; x in {0,1}); for each the COMPLETE 5844-element witness of calculate_rln_witness is compared with the reference generator rln.wasm (node) and with the Lean model's evaluation of the regenerated graph, and recomputed with the named inputs in a shuffled order; distinct = distinct assignment")
+    run.rules.append("assignments of the 46 inputs: limb-boundary and near-modulus values in each field position (sampled positions in quick), one-hot / all-zero / all-one direction patterns, message ids 0 / limit-1 for limits 1, 2, 2^16, all-zero and all-(p-1) vectors, random ones, and assignments chosen so that an INTERNAL multiplication operand is exactly 0 / 1 / -1 (sibling = running hash + d at a level, both directions; x in {0,1}); for each the COMPLETE 5844-element witness of calculate_rln_witness is compared with the reference generator rln.wasm (node) and with the Lean model's evaluation of the regenerated graph, and recomputed with the named inputs in a shuffled order; the same evaluation repeated from a caller-owned buffer that is refilled in place with another graph of equal length in between (purity across calls); distinct = distinct assignment")
     run.cov["distinct_nontrivial"] = run.cov["distinct_nontrivial"]
